@@ -35,14 +35,16 @@ func TestC09Password(t *testing.T) {
 	vReadJSON(t, "VERIF_CASES", &cases)
 	ips := map[string]string{"ip1": "127.0.0.1", "ip2": "10.1.2.3", "ip1x": "127.0.0.10", "ipz": "192.168.7.7"}
 	users := map[string]string{"health": config.HealthUser, "schedule": config.ScheduleUser, "continuous": config.ContinuousUser, "other": "alice"}
-	pws := map[string]string{"HEALTHPW": config.HealthUser, "job1": "nightly-errors", "job2": "weekly report", "job3": "watch-oom", "wrong": "letmein", "": ""}
-	var j1, j2 config.Scheduled
+	pws := map[string]string{"HEALTHPW": config.HealthUser, "job1": "nightly-errors", "job2": "weekly report", "job3": "watch-oom", "jobX": "shared name", "wrong": "letmein", "": ""}
+	var j1, j2, jx config.Scheduled
 	j1.Name, j1.AllowFrom, j1.Enable = pws["job1"], []string{ips["ip1"]}, true
 	j2.Name, j2.AllowFrom, j2.Enable = pws["job2"], []string{ips["ip2"], ips["ip1"]}, true
-	var j3 config.Continuous
+	jx.Name, jx.AllowFrom, jx.Enable = pws["jobX"], []string{ips["ip2"]}, true
+	var j3, jy config.Continuous
 	j3.Name, j3.AllowFrom, j3.Enable = pws["job3"], []string{ips["ip2"]}, true
-	config.Server.Schedule = []config.Scheduled{j1, j2}
-	config.Server.Continuous = []config.Continuous{j3}
+	jy.Name, jy.AllowFrom, jy.Enable = pws["jobX"], []string{ips["ip1"]}, true
+	config.Server.Schedule = []config.Scheduled{j1, j2, jx}
+	config.Server.Continuous = []config.Continuous{j3, jy}
 	s := &Server{}
 	type bad struct {
 		Case    c09PwCase `json:"case"`
@@ -59,5 +61,24 @@ func TestC09Password(t *testing.T) {
 			}
 		}
 	}
-	vWriteJSON(t, "VERIF_OUT", map[string]interface{}{"evaluations": len(cases) * 3, "bad": bads})
+	// histories of two logins on one server: the first decision must not influence the second
+	type bad2 struct {
+		First   c09PwCase `json:"first"`
+		Case    c09PwCase `json:"case"`
+		Granted bool      `json:"granted"`
+	}
+	var bads2 []bad2
+	pairs := 0
+	for _, a := range cases {
+		for _, c := range cases {
+			s2 := &Server{}
+			s2.Callback(c09PwMeta{users[a.User], ips[a.Addr] + ":40001"}, []byte(pws[a.Pw]))
+			_, err := s2.Callback(c09PwMeta{users[c.User], ips[c.Addr] + ":40002"}, []byte(pws[c.Pw]))
+			pairs++
+			if (err == nil) != c.Ref && len(bads2) < 20 {
+				bads2 = append(bads2, bad2{a, c, err == nil})
+			}
+		}
+	}
+	vWriteJSON(t, "VERIF_OUT", map[string]interface{}{"evaluations": len(cases)*3 + pairs, "bad": bads, "bad2": bads2, "pairs": pairs})
 }
